@@ -277,6 +277,12 @@ func cmdC19(c *ctx) {
 			}
 			continue
 		}
+		// the empty edit: the same text again (any difference is non-determinism of lowering or of a back end)
+		{
+			d := diffOutputs(base, compileAll(src, ep), false)
+			c.line("e2e.txt", fmt.Sprintf("%s %s %s %s", "identity", q(d), q(src), q(src)))
+			c.count("e2e-identity")
+		}
 		// trivia
 		if s2, ok := c.retrivia(src, true); ok {
 			after := compileAll(s2, ep)
